@@ -112,13 +112,13 @@ Definition in_int64 (z : Z) : bool := (int64_min <=? z)%Z && (z <=? int64_max)%Z
 
 (* strconv.ParseInt(s, 10, 64) == strconv.Atoi on 64-bit: optional sign, then
    decimal digits (no underscores in base 10), range-checked *)
+Definition split_sign (s : bytes) : bool * bytes :=
+  match s with
+  | c :: t => if c =? 43 then (false, t) else if c =? 45 then (true, t) else (false, s)
+  | [] => (false, s)
+  end.
 Definition atoi (s : bytes) : option Z :=
-  let '(neg, body) :=
-    match s with
-    | 43 :: t => (false, t)
-    | 45 :: t => (true, t)
-    | _ => (false, s)
-    end in
+  let '(neg, body) := split_sign s in
   match parse_udec body with
   | None => None
   | Some n => let z := if neg then (- Z.of_N n)%Z else Z.of_N n in
